@@ -49,6 +49,7 @@ pub fn check_parts(rep: &mut Rep, c: i16, ns: u64) {
     if nt {
         rep.nt(h64(&[1, c as u64, ns]));
     }
+    rep.log_event("from_parts", || format!("\"c\":{},\"ns\":{},\"want\":\"{}\"", c, ns, want));
     rep.sample("from_parts", || format!("from_parts({c},{ns}) => want {}", fmt_parts(canon(want))));
     if let Some(d) = canon_check(rep, "from_parts", guard(|| Duration::from_parts(c, ns)), want, &|| format!("from_parts({c},{ns})")) {
         check_readback(rep, d);
@@ -146,6 +147,7 @@ pub fn check_total(rep: &mut Rep, v: i128) {
         rep.class("total/beyond-bounds");
         rep.nt(h64(&[5, v as u64, (v >> 64) as u64]));
     }
+    rep.log_event("from_total", || format!("\"v\":\"{}\",\"want\":\"{}\"", v, clamp(v)));
     rep.sample("from_total_nanoseconds", || format!("from_total_nanoseconds({v}) => want {}", fmt_parts(canon(v))));
     if let Some(d) = canon_check(rep, "from_total_nanoseconds", guard(|| Duration::from_total_nanoseconds(v)), v, &|| format!("from_total_nanoseconds({v})")) {
         check_readback(rep, d);
@@ -172,6 +174,7 @@ pub fn check_unit(rep: &mut Rep, n: i64, u: Unit) {
             rep.class("unit/beyond-one-century");
             rep.nt(h64(&[6, n as u64, unit_ns(u) as u64]));
         }
+        rep.log_event("unit", || format!("\"n\":\"{}\",\"unit_ns\":\"{}\",\"want\":\"{}\"", n, unit_ns(u), clamp(want)));
         rep.sample("unit", || format!("{n} * {:?} => want {}", u, fmt_parts(canon(want))));
         canon_check(rep, "n*Unit", guard(|| n * u), want, &det);
     }
@@ -211,6 +214,7 @@ pub fn check_compose(rep: &mut Rep, sign: i8, f: [u64; 7]) {
     if sign < 0 {
         rep.class("compose/negative");
     }
+    rep.log_event("compose", || format!("\"sign\":{},\"f\":[{},{},{},{},{},{},{}],\"want\":\"{}\"", sign, f[0], f[1], f[2], f[3], f[4], f[5], f[6], clamp(want)));
     rep.sample("compose", || format!("compose({sign},{:?}) => want {}", f, fmt_parts(canon(want))));
     canon_check(rep, "compose", guard(|| Duration::compose(sign, f[0], f[1], f[2], f[3], f[4], f[5], f[6])), want, &|| format!("compose({sign},{:?})", f));
 }
